@@ -16,6 +16,7 @@ import (
 	"sort"
 	"strings"
 	"syscall"
+	"time"
 
 	"github.com/Jigsaw-Code/outline-ss-server/service"
 
@@ -460,6 +461,75 @@ func shortBuffer() *engine.Scenario {
 	return sc
 }
 
+// deadlineAndEmpty: a read deadline set through a handle expires (the read fails with a timeout,
+// nothing else happens to the handles); a read with an empty buffer waits for a datagram and takes
+// it; afterwards datagrams are still delivered, each exactly once.
+func deadlineAndEmpty() *engine.Scenario {
+	var log []string
+	sc := &engine.Scenario{Name: "packet-deadline-and-empty-buffer", Opt: vrt.Options{Horizon: time.Hour}}
+	sc.Body = func() {
+		log = nil
+		vnet.Reset()
+		m := service.NewListenerManager()
+		pc, err := m.ListenPacket(addr)
+		if err != nil {
+			panic(err)
+		}
+		pc2, err := m.ListenPacket(addr)
+		if err != nil {
+			panic(err)
+		}
+		s1, _ := vnet.EnvListenUDP(world.UDPAddr("203.0.113.7:5001"))
+		rd := vrt.Spawn("reader", func() {
+			buf := make([]byte, 16)
+			pc.SetReadDeadline(vrt.NowQuiet().Add(time.Second))
+			_, _, err := pc.ReadFrom(buf)
+			var ne net.Error
+			log = append(log, fmt.Sprintf("deadline-read: timeout=%v", errors.As(err, &ne) && ne.Timeout()))
+			pc.SetReadDeadline(time.Time{})
+			// (an expiry that the shared reader noticed before the deadline was cleared may still be
+			// handed out once: timeouts are retried)
+			var n int
+			var from net.Addr
+			for try := 0; try < 3; try++ {
+				n, from, err = pc.ReadFrom(nil)
+				if !(errors.As(err, &ne) && ne.Timeout()) {
+					break
+				}
+			}
+			log = append(log, fmt.Sprintf("empty-buffer-read: n=%d from=%v err=%v", n, from, err))
+			for i := 0; i < 2; i++ {
+				n, from, err := pc.ReadFrom(buf)
+				if err != nil {
+					log = append(log, "read: "+err.Error())
+					return
+				}
+				log = append(log, fmt.Sprintf("read: %v from=%v", buf[:n], from))
+			}
+		})
+		snd := vrt.Spawn("sender", func() {
+			vrt.Sleep(3 * time.Second)
+			for _, d := range [][]byte{{1}, {2, 2}, {3, 3, 3}} {
+				s1.WriteTo(d, world.UDPAddr(addr))
+				vrt.Sleep(time.Second)
+			}
+		})
+		vrt.Join(rd, snd)
+		pc.Close()
+		pc2.Close()
+		vrt.WaitIdle()
+	}
+	sc.Check = func(x *vrt.Exec) (string, bool, []*engine.Finding) {
+		fs := hk.Generic(x, hk.Opts{})
+		want := "[deadline-read: timeout=true empty-buffer-read: n=0 from=203.0.113.7:5001 err=<nil> read: [2 2] from=203.0.113.7:5001 read: [3 3 3] from=203.0.113.7:5001]"
+		if len(fs) == 0 && fmt.Sprint(log) != want {
+			fs = append(fs, &engine.Finding{Sig: "datagram-mangled{deadline-and-empty-buffer}", Msg: fmt.Sprintf("one reader on a handle (another handle open and idle): got %v, want %s", log, want)})
+		}
+		return fmt.Sprint(log), true, fs
+	}
+	return sc
+}
+
 func twoReaders() *engine.Scenario {
 	type got struct{ data, from string }
 	var reads []got
@@ -561,7 +631,7 @@ func scenarios(tier string) []*engine.Scenario {
 			out = append(out, streamScenario(s))
 		}
 	}
-	out = append(out, twoReaders(), shortBuffer())
+	out = append(out, twoReaders(), shortBuffer(), deadlineAndEmpty())
 	return out
 }
 
